@@ -302,6 +302,24 @@ theorem allocatable_has_finalizer_any_failures (F : Fails) (blocks : List (Bool 
   unfold reconcileFinalizer
   simp [applyVerdict_deleting, hd, hxf]
 
+/-- **Limit under write failures (witness).**  `allocatable_has_finalizer_any_failures` needs
+the pool's own writes to go through, and that hypothesis cannot be dropped: with the plan
+"status write succeeds, finalizer `Update` fails" a pool is Allocatable=True WITHOUT the
+finalizer after the pass; a delete request arriving before the next pass then removes it at
+once although a block lies inside it.  Transient (the next successful pass adds the
+finalizer) and outside the property's quantifier, which ranges over histories of pool/block
+events, not over API fault sequences — recorded here so that the limit is explicit. -/
+theorem finalizer_write_failure_witness :
+    let pX : Pool := ⟨7, some (false, ⟨0x0a000000, 16⟩), 0, false, false, none, false⟩
+    let s0 : State := ⟨[pX], [(false, ⟨0x0a000040, 26⟩)]⟩
+    let s1 := s0.step (.reconcileF [] [7])
+    let s2 := s1.step (.delete 7)
+    s1.pools.map (fun p => (p.name, p.allocTrue, p.fin)) = [(7, true, false)] ∧
+    s2.pools = [] ∧ blocksInPool s2.blocks false ⟨0x0a000000, 16⟩ = true := by
+  intro pX s0 s1 s2
+  simp only [s2, s1, s0, pX, State.step, reconcileF, verdicts, sortPools, List.mergeSort_singleton]
+  decide
+
 /-! ### non-vacuity: a configuration exercising every clause -/
 
 def pA : Pool := ⟨0, some (false, ⟨0x0a000000, 16⟩), 1, false, false, some ⟨true, "OK"⟩, true⟩    -- incumbent 10.0.0.0/16
